@@ -73,6 +73,7 @@ func init() {
 			ruleCounting(c, r, "", "read")
 			ruleRawEOFFlag(c, r, "")
 			ruleReaderFrom(c, r, "")
+			ruleReopenState(c, r, "")
 			ruleCheckEncoding(c, r, "")
 			ruleDictCapDecode(c, r, "")
 			ruleLzmaFilterCodec(c, r, "")
@@ -113,6 +114,7 @@ func init() {
 			// the reading half of the round trip: the decoder accepts every operation the encoder may emit
 			// (a maximum-length match into exactly that much free space included)
 			ruleDecoderBounds(c, r, "")
+			ruleEncAvail(c, r, "")
 			ruleIO(c, r, c.Cone(nonNilFns(c.Func("lzma", "NewWriter"), c.Func("lzma", "WriterConfig.NewWriter"), c.Func("lzma", "Writer.Write"), c.Func("lzma", "Writer.Close"))...), "", true)
 		},
 	})
